@@ -443,11 +443,20 @@ def filter_case(kind, d, ts, extra):
 def oracle_filters(rng, n, stats, props, kinds=('size', 'prefix', 'position', 'suffix', 'overlap')):
     """C04 safety (pair / tables / candset), C09 empties, C14 pruning promises, C06 candset row-wise + overlap exact"""
     v = []
+    prev, earlier = None, []
     for _ in range(n):
-        kind = rng.choice(kinds)
-        # tokenizer consistent with the property's assumption: sets for set measures, bags of q-grams for ED
-        ts = gen_tokenizer(rng)
-        f, d = gen_filter(rng, ts, kind, stats)
+        if prev is not None and rng.random() < 0.25:
+            # the SAME filter object on another pair of tables: a filter is a value (tokenizer, measure, threshold, flags);
+            # whatever it did on earlier tables must not matter
+            kind, ts, f, d = prev
+            stats.hit('oracle.filters.object_reused')
+        else:
+            kind = rng.choice(kinds)
+            # tokenizer consistent with the property's assumption: sets for set measures, bags of q-grams for ED
+            ts = gen_tokenizer(rng)
+            f, d = gen_filter(rng, ts, kind, stats)
+            earlier = []
+        prev = (kind, ts, f, d)
         m = d.get('measure', 'OVERLAP')
         t = f.overlap_size if kind == 'overlap' else f.threshold
         if m == 'EDIT_DISTANCE':
@@ -456,6 +465,9 @@ def oracle_filters(rng, n, stats, props, kinds=('size', 'prefix', 'position', 's
             ts.obj.set_return_set(True)
         L, R, lk, rk, la, ra = gen_join_frames(rng, ts, stats, big=rng.random() < 0.3)
         case0 = {'ltable': frame_to_case(L), 'rtable': frame_to_case(R), 'l_key': lk, 'r_key': rk, 'l_attr': la, 'r_attr': ra}
+        if earlier:
+            case0['earlier_tables_on_this_filter_object'] = list(earlier)
+        earlier.append({'ltable': case0['ltable'], 'rtable': case0['rtable'], 'l_key': lk, 'r_key': rk, 'l_attr': la, 'r_attr': ra})
         try:
             nj = rng.choice([1, 1, 2, 3])
             out = f.filter_tables(L, R, lk, rk, la, ra, n_jobs=nj, show_progress=False)
@@ -641,16 +653,24 @@ def bag_pipeline_corpus_case():
     return 'jaccard', ts, L, R, 'id', 'id', 'attr', 'attr', 0.8, kw
 
 
+def overlap_size(a, b):
+    """the OVERLAP measure's similarity function: number of common tokens"""
+    return len(set(a) & set(b))
+
+
+PIPE_SIMS = dict(SIMS, overlap=overlap_size)
+
+
 def oracle_pipeline(rng, n, stats):
     v = []
     for it in range(n + 1):
-        which = rng.choice(['jaccard', 'cosine', 'dice', 'edit_distance'])
+        which = rng.choice(['jaccard', 'cosine', 'dice', 'edit_distance', 'overlap', 'overlap_coefficient', 'jaccard', 'edit_distance'])
         if it == 0:
             which, ts, L, R, lk, rk, la, ra, t, kw = bag_pipeline_corpus_case()
         else:
             which, ts, L, R, lk, rk, la, ra, t, kw = gen_join_case(rng, stats, which)
         # the tokenizer "as supplied": a py_stringmatching tokenizer is in bag mode unless return_set=True was asked for
-        bag_mode = which != "edit_distance" and (it == 0 or (not ts.obj.get_return_set() and rng.random() < 0.3))
+        bag_mode = which in MEASURE_OF and (it == 0 or (not ts.obj.get_return_set() and rng.random() < 0.3))
         kw.update({'allow_missing': False, 'l_out_attrs': None, 'r_out_attrs': None, 'out_sim_score': True})
         kw.pop('l_out_prefix', None)
         kw.pop('r_out_prefix', None)
@@ -671,13 +691,17 @@ def oracle_pipeline(rng, n, stats):
             else:
                 ts.obj.set_return_set(not bag_mode)
                 fk = 'size' if it == 0 else rng.choice(['size', 'prefix', 'position', 'overlap'])
+                if which == 'overlap_coefficient':
+                    fk = 'overlap'       # the only safe filter for the overlap coefficient (a positive score needs a common token)
                 if fk == 'overlap':
                     from py_stringsimjoin.filter.overlap_filter import OverlapFilter
                     F = OverlapFilter(ts.obj, 1)
+                elif which == 'overlap':
+                    F = FILTERS[fk](ts.obj, 'OVERLAP', t)
                 else:
                     F = FILTERS[fk](ts.obj, MEASURE_OF[which], t, kw.get('allow_empty', True))
                 C = F.filter_tables(L, R, lk, rk, la, ra, n_jobs=rng.choice([1, 2]), show_progress=False)
-                P = ssj.apply_matcher(C, 'l_' + lk, 'r_' + rk, L, R, lk, rk, la, ra, ts.obj, SIMS[which], t, kw['comp_op'], n_jobs=rng.choice([1, 2]), show_progress=False)
+                P = ssj.apply_matcher(C, 'l_' + lk, 'r_' + rk, L, R, lk, rk, la, ra, ts.obj, PIPE_SIMS[which], t, kw['comp_op'], n_jobs=rng.choice([1, 2]), show_progress=False)
         except Exception as e:   # noqa: BLE001
             v.append(viol('C15', 'valid pipeline call raised %s: %s' % (type(e).__name__, str(e)[:80]), case))
             continue
@@ -702,7 +726,7 @@ def oracle_pipeline(rng, n, stats):
             lt, rt = ts.tokens(ls, True), ts.tokens(rs, True)
             if not lt and not rt:
                 continue
-            raw = SIMS[which](set(lt), set(rt))
+            raw = PIPE_SIMS[which](set(lt), set(rt))
             if bag_mode:
                 bl, br = ts.tokens(ls, False), ts.tokens(rs, False)
                 repeats = len(bl) != len(set(bl)) or len(br) != len(set(br))
@@ -712,13 +736,13 @@ def oracle_pipeline(rng, n, stats):
                                       dict(case, bag_mode_repeats=True, pair=[str(p[0]), str(p[1])]), p in pp, p in jp))
                     continue
                 lt, rt = bl, br
-            raw_list = SIMS[which](lt, rt)      # what apply_matcher computes: py_stringmatching on the token LISTS
+            raw_list = PIPE_SIMS[which](lt, rt)      # what apply_matcher computes: py_stringmatching on the token LISTS
             op = OPS[kw['comp_op']]
             if op(raw, t) != op(round(raw, 4), t) or op(raw_list, t) != op(round(raw_list, 4), t):
                 continue          # straddling pair (raw and rounded score on different sides of t): excluded by the property
             if (p in jp) != (p in pp):
                 v.append(viol('C07', 'join and %s-filter pipeline disagree on pair (score %r, t %r)' % (fk, raw, t), case, p in pp, p in jp))
-            elif p in jp and round(float(pp[p]), 4) != float(jp[p]):
+            elif p in jp and round(float(pp[p]), 4) != (float(jp[p]) if which in MEASURE_OF else round(float(jp[p]), 4)):
                 v.append(viol('C07', 'pipeline score rounded to 4 decimals differs from the join score', case, round(float(pp[p]), 4), float(jp[p])))
     return v
 
